@@ -103,7 +103,7 @@ def run(ctx):
     ok, rep = ctx.coq_props("Cache/Props_C20.v")
     proof_broken = not ok
 
-    n = int(os.environ.get("VERIF_C20_N", "500" if ctx.quick() else "6000"))
+    n = int(os.environ.get("VERIF_C20_N", "600" if ctx.quick() else "20000"))
     out = os.path.join(ctx.tmp, "c20.tsv")
     env = {"VERIF_OUT": out, "VERIF_N": str(n), "VERIF_SEED": str(ctx.seed)}
     rc, o = ctx.go_overlay_test("", {"zz_verif_c20_test.go": os.path.join(HARNESS, "overlay/root/zz_verif_c20_test.go")},
@@ -185,13 +185,37 @@ def run(ctx):
     for a in range(0, len(cases), shard):
         items = ["(%s, %s)" % (cq_N(i), to_case(plan, events, final)) for i, plan, events, final in cases[a:a + shard]]
         exprs.append("mismatches [\n" + ";\n".join(items) + "]")
+    # negative controls: perturbed copies of real cases that the model must REJECT (keeps the acceptance
+    # pipeline honest: rendering, evaluation and result parsing are exercised on known-bad inputs every run)
+    controls = []
+    for i, plan, events, final in cases[:60]:
+        rets = [j for j, e in enumerate(events) if e[0] == "r" and e[3] >= 0]
+        if rets:
+            j = rets[len(rets) // 2]
+            ev2 = list(events)
+            ev2[j] = (ev2[j][0], ev2[j][1], ev2[j][2], ev2[j][3] + 1000)
+            controls.append((10 ** 6 + 2 * i, plan, ev2, final))
+        if final:
+            k, v = final[0]
+            controls.append((10 ** 6 + 2 * i + 1, plan, events, [(k, 999 if v is None else None)] + final[1:]))
+    if controls:
+        items = ["(%s, %s)" % (cq_N(i), to_case(plan, events, final)) for i, plan, events, final in controls]
+        exprs.append("mismatches [\n" + ";\n".join(items) + "]")
     okc, res, logs = ctx.coq_eval(HDR, exprs)
     if not okc:
         ctx.log("coq evaluation failed", logs[:1])
         ctx.violation("model evaluation failed", {"theorem_or_correspondence": "C20 cases.v evaluation", "log": logs[:2]},
                       found_input=False)
         return
-    mism = [x for r in res for x in r]
+    allm = [x for r in res for x in r]
+    mism = [x for x in allm if x < 10 ** 6]
+    rejected_controls = {x for x in allm if x >= 10 ** 6}
+    ctx.coverage["correspondence"]["negative_controls"] = len(controls)
+    ctx.coverage["correspondence"]["negative_controls_rejected"] = len(rejected_controls)
+    if len(rejected_controls) != len(controls):
+        ctx.violation("the model accepted %d deliberately corrupted histories" % (len(controls) - len(rejected_controls)),
+                      {"theorem_or_correspondence": "C20 acceptance pipeline (negative controls)",
+                       "accepted": [i for i, _, _, _ in controls if i not in rejected_controls][:5]}, found_input=False)
     ctx.coverage["correspondence"]["cases"] = len(cases)
     ctx.coverage["correspondence"]["mismatches"] = len(mism)
     ctx.log("scenarios=%d racing=%d mismatches=%d oracle_failures=%d" % (len(cases), raced_scen, len(mism), len(oracles)))
